@@ -1336,7 +1336,8 @@ impl DbInner {
 				// On error the log reader may be left in inconsistent state. So it is important
 				// to no attempt any further log enactment.
 				log::debug!(target: "parity-db", "Shutdown with error state {}", err);
-				self.log.clean_logs(self.log.num_dirty_logs())?;
+				// Enacted logs may only be truncated once the tables are flushed.
+				self.clean_all_logs()?;
 				return Ok(())
 			}
 		}
